@@ -95,3 +95,13 @@ Theorem C10_noise_fragments :
      == match init with Some v => v | None => z end).
 Proof. exact (conj frag_ou_update (conj frag_ou_stepv frag_ou_reset)). Qed.
 Print Assumptions C10_noise_fragments.
+
+(* the noise-free step moves towards the mean without overshooting when 0 <= theta*dt <= 1; the next
+   state is affine in the draw *)
+Theorem C10_ou_step_shape :
+  (forall theta dt m x, 0 <= theta * dt -> theta * dt <= 1 ->
+     (x <= m -> x <= ou_step1 theta dt 0 m 0 x 0 /\ ou_step1 theta dt 0 m 0 x 0 <= m) /\
+     (m <= x -> m <= ou_step1 theta dt 0 m 0 x 0 /\ ou_step1 theta dt 0 m 0 x 0 <= x)) /\
+  (forall theta dt sqdt m s x n d, ou_step1 theta dt sqdt m s x (n + d) == ou_step1 theta dt sqdt m s x n + s * sqdt * d).
+Proof. exact (conj ou_mean_step_between ou_next_affine). Qed.
+Print Assumptions C10_ou_step_shape.
